@@ -111,11 +111,10 @@ Qed.
 (* ------------------------------------------------------------------------------------- *)
 (** * BrtBundleSh *)
 
-Lemma bundle_sh_enc : forall rels s ch, bs_legal rels s ch = true ->
-  bundle_sh rels (bundle_body s ch) =
-  Ok (Some (s, s_xl_slash ++ kind_dir (m_kind s) ++ SLASH :: bs_file ch)).
+Lemma bundle_sh_enc : forall l s ch, bs_legal (rels_raw l) s ch = true ->
+  bundle_sh (rels_map l) (bundle_body s ch) = Ok (Some (s, s_xl_slash ++ bs_part ch)).
 Proof.
-  intros rels s ch H. unfold bs_legal in H.
+  intros l s ch H. unfold bs_legal in H.
   apply andb_true_iff in H. destruct H as [H Hg].
   apply andb_true_iff in H. destruct H as [H Hbom].
   apply andb_true_iff in H. destruct H as [H Hl2].
@@ -124,8 +123,14 @@ Proof.
   apply andb_true_iff in H. destruct H as [H Hrid].
   apply andb_true_iff in H. destruct H as [Hkind Hname].
   destruct (name_ok_parts _ Hname) as [Sn _]. destruct (name_ok_parts _ Hrid) as [Sr _].
-  destruct (map_get (bs_rid ch) rels) as [t|] eqn:Eg; [|discriminate].
-  apply str_eqb_eq in Hg. subst t. apply negb_true_iff in Hbom.
+  destruct (map_get (bs_rid ch) (rels_raw l)) as [[t ty]|] eqn:Eg0; [|discriminate].
+  apply andb_true_iff in Hg. destruct Hg as [Hg1 Hg2].
+  apply str_eqb_eq in Hg1. apply str_eqb_eq in Hg2. subst t ty. apply negb_true_iff in Hbom.
+  assert (Eg : map_get (bs_rid ch) (rels_map l) = Some (bs_part ch, Some (m_kind s))).
+  { rewrite map_get_rels_map, Eg0. cbn [fst snd].
+    rewrite (kind_of_rel_type_enc (bs_talt ch) (m_kind s));
+      [reflexivity|destruct (m_kind s); try discriminate; reflexivity]. }
+  set (rels := rels_map l) in *.
   set (L := Utf16.utf16_len (bs_rid ch)) in *.
   set (A8 := le32 (xlsb_vis_code (m_vis s)) ++ le32 (bs_tabid ch)).
   set (A12 := A8 ++ Utf16.u32_le L).
@@ -157,10 +162,7 @@ Proof.
   2: { unfold bundle_body. rewrite read_u32_le32 by (destruct (m_vis s); cbn; lia). reflexivity. }
   cbn [obind].
   assert (Hv : xlsb_vis (xlsb_vis_code (m_vis s)) = Some (m_vis s)) by (destruct (m_vis s); reflexivity).
-  rewrite Hv. unfold xlsb_target.
-  assert (Hk : kind_of_path (s_xl_slash ++ kind_dir (m_kind s) ++ SLASH :: bs_file ch) = Some (m_kind s))
-    by (apply kind_of_path_dir; destruct (m_kind s); try discriminate; reflexivity).
-  rewrite Hk.
+  rewrite Hv. cbn [sheet_kind].
   replace (drop (12 + L * 2) (bundle_body s ch)) with (W2 ++ []).
   2: { rewrite Hbw. replace (12 + L * 2) with (len (A12 ++ wbytes (bs_rid ch)))
          by (rewrite len_app, HA12, len_wbytes; fold L; lia).
@@ -175,7 +177,7 @@ Qed.
 Lemma fuel_S : forall n f, (S n <= f)%nat -> exists f0, f = S f0 /\ (n <= f0)%nat.
 Proof. intros n [|f0] H; [lia|]. exists f0. split; [reflexivity|lia]. Qed.
 
-Definition loop1_body (f : nat) (rels : smap) (t : N) (b rest : bytes) (st : parsed)
+Definition loop1_body (f : nat) (rels : rmap) (t : N) (b rest : bytes) (st : parsed)
   : outcome (parsed * bytes) :=
   if t =? 153 then
     match b with
@@ -233,28 +235,27 @@ Proof.
   unfold bundle_body. rewrite !len_app, !len_le32, !len_enc_wide. lia.
 Qed.
 
-Lemma loop1_sheets : forall rels j1 sheets chs rest st f,
-  forallb junk1_ok j1 = true -> forallb2 (bs_legal rels) sheets chs = true ->
+Lemma loop1_sheets : forall l j1 sheets chs rest st f,
+  forallb junk1_ok j1 = true -> forallb2 (bs_legal (rels_raw l)) sheets chs = true ->
   (length (flat_map (fun sc => brecs j1 ++ brec 156 (bundle_body (fst sc) (snd sc)))
                     (combine sheets chs) ++ rest) <= f)%nat ->
   exists f', (length rest <= f')%nat /\
-    xlsb_loop1 f rels (flat_map (fun sc => brecs j1 ++ brec 156 (bundle_body (fst sc) (snd sc)))
+    xlsb_loop1 f (rels_map l) (flat_map (fun sc => brecs j1 ++ brec 156 (bundle_body (fst sc) (snd sc)))
                                 (combine sheets chs) ++ rest) st =
-    xlsb_loop1 f' rels rest
-      (add_sheets st (map (fun sc => (fst sc, s_xl_slash ++ kind_dir (m_kind (fst sc))
-                                               ++ SLASH :: bs_file (snd sc)))
+    xlsb_loop1 f' (rels_map l) rest
+      (add_sheets st (map (fun sc => (fst sc, s_xl_slash ++ bs_part (snd sc)))
                           (combine sheets chs))).
 Proof.
-  intros rels j1. induction sheets as [|s sheets IH]; intros [|ch chs] rest st f Hj Hl Hf;
+  intros l j1. set (rels := rels_map l). induction sheets as [|s sheets IH]; intros [|ch chs] rest st f Hj Hl Hf;
     cbn in Hl; try discriminate.
   - exists f. split; [exact Hf|reflexivity].
   - apply andb_true_iff in Hl. destruct Hl as [Hl1 Hl2].
     cbn [combine flat_map map add_sheets fst snd] in *. rewrite <- !app_assoc in *.
     destruct (loop1_junk rels j1 _ st f Hj Hf) as [f1 [Hf1 E1]]. rewrite E1.
     destruct (loop1_rec f1 rels 156 (bundle_body s ch) _
-                (st) ltac:(lia) (len_bundle_body rels s ch Hl1) Hf1) as [f2 [Hf2 E2]].
+                (st) ltac:(lia) (len_bundle_body (rels_raw l) s ch Hl1) Hf1) as [f2 [Hf2 E2]].
     rewrite E2. unfold loop1_body. change (156 =? 153) with false. change (156 =? 156) with true.
-    cbn iota. rewrite (bundle_sh_enc rels s ch Hl1). cbn [obind].
+    cbn iota. unfold rels. rewrite (bundle_sh_enc l s ch Hl1). cbn [obind]. fold rels.
     apply IH; assumption.
 Qed.
 
@@ -333,9 +334,9 @@ Proof.
     as [f5 [Hf5 E5]].
   rewrite E5. unfold loop1_body at 1. change (143 =? 153) with false.
   change (143 =? 156) with false. change (143 =? 144) with false. cbn iota.
-  destruct (loop1_sheets rels j1 (wb_sheets wb) (bc_sheets c) _ (set_1904 parsed0 (wb_1904 wb)) f5
+  destruct (loop1_sheets (bc_rels c) j1 (wb_sheets wb) (bc_sheets c) _ (set_1904 parsed0 (wb_1904 wb)) f5
               J1 Hsheets Hf5) as [f6 [Hf6 E6]].
-  rewrite E6.
+  fold rels in E6. rewrite E6.
   match goal with |- xlsb_loop1 _ _ _ ?s = _ =>
     destruct (loop1_junk rels j1 _ s f6 J1 Hf6) as [f7 [Hf7 E7]]; rewrite E7;
     destruct (loop1_rec f7 rels 144 [] R2 s ltac:(lia) len_nil_small Hf7) as [f8 [Hf8 E8]];
@@ -472,7 +473,8 @@ Proof.
   rewrite read_i32_le32 by lia. cbn [obind].
   replace (Z.of_N b =? -2)%Z with false by lia. replace (Z.of_N b =? -1)%Z with false by lia.
   replace (0 <=? Z.of_N b)%Z with true by lia. rewrite N2Z.id.
-  destruct (nthN_some _ sheets b ltac:(lia)) as [nm Hn]. rewrite Hn. reflexivity.
+  destruct (nthN_some _ sheets b ltac:(lia)) as [nm Hn]. rewrite Hn.
+  rewrite Ptg_proofs.quote_sheet_name_spec. reflexivity.
 Qed.
 
 Lemma len_xti_blocks : forall xs : list (N * N * N), len (flat_map xti_bytes xs) = 12 * len xs.
@@ -725,19 +727,20 @@ Proof.
   intros junk l Hj. unfold xlsb_rels_events, rels_events, rels_map. cbn [app qn].
   cbn [xlsb_read_relationships]. change (str_eqb k_Relationships k_Relationship) with false.
   cbn iota.
-  assert (Hgen : forall (l : list (str * str)) m rest,
+  assert (Hgen : forall (l : list (str * (str * str))) m rest,
     xlsb_read_relationships
-      (flat_map (fun it : str * str => junk ++ [Start k_Relationship
-                                         [(a_Id, fst it); (a_Type, t_rel); (a_Target, snd it)];
+      (flat_map (fun it : str * (str * str) => junk ++ [Start k_Relationship
+                                         [(a_Id, fst it); (a_Type, snd (snd it));
+                                          (a_Target, fst (snd it))];
                                    End k_Relationship]) l ++ rest) m
-    = xlsb_read_relationships rest (rev l ++ m)).
+    = xlsb_read_relationships rest (rev (map rel_entry l) ++ m)).
   { induction l0 as [|x l0 IH]; intros m rest; [reflexivity|].
-    cbn [flat_map rev]. rewrite <- !app_assoc. rewrite (brels_skip junk _ m Hj).
+    cbn [flat_map map rev]. rewrite <- !app_assoc. rewrite (brels_skip junk _ m Hj).
     cbn [app xlsb_read_relationships].
     change (str_eqb k_Relationship k_Relationship) with true. cbn iota.
-    change (brel_attrs [(a_Id, fst x); (a_Type, t_rel); (a_Target, snd x)] None None)
-      with (Some (fst x), Some (snd x)). cbn beta iota.
-    rewrite IH. unfold map_insert. destruct x; reflexivity. }
+    change (brel_attrs [(a_Id, fst x); (a_Type, snd (snd x)); (a_Target, fst (snd x))] None None None)
+      with (Some (fst x), Some (fst (snd x)), kind_of_rel_type (snd (snd x))). cbn beta iota.
+    rewrite IH. unfold map_insert, rel_entry. reflexivity. }
   rewrite Hgen, app_nil_r. rewrite (brels_skip junk _ _ Hj). reflexivity.
 Qed.
 
@@ -789,9 +792,11 @@ Definition ex_xlsb_wb : workbook Ptg.expr :=
        [([110], Ptg.ERef3d Ptg.CRef 1 (Ptg.Build_cref 0 1 false true));
         ([109], Ptg.EBin 3 (Ptg.EName Ptg.CVal 1) (Ptg.EInt 5))] true.
 Definition ex_xlsb_c : xlsb_choice :=
-  mkBc [([98], d_worksheets ++ SLASH :: [50]); ([99], d_chartsheets ++ SLASH :: [51]);
-        ([97], d_macrosheets ++ SLASH :: [49])]
-       [mkBs [97] [49] 1; mkBs [98] [50] 7; mkBs [99] [51] 3]
+  (* parts: xl/worksheets/1 is the MACRO sheet, xl/s.bin the worksheet, xl/d/c the chart sheet *)
+  mkBc [([98], ([115; 46; 98; 105; 110], t_ws_strict)); ([99], ([100; 47; 99], t_cs));
+        ([120], ([116], ns_rel)); ([97], (d_worksheets ++ SLASH :: [49], t_xlim))]
+       [mkBs [97] (d_worksheets ++ SLASH :: [49]) 1 true; mkBs [98] [115; 46; 98; 105; 110] 7 true;
+        mkBs [99] [100; 47; 99] 3 false]
        [(128, [1; 2; 3])] [(3000, [9])] false 3 [0; 0; 0] [(0, 1, 1); (0, 0, 0)]
        [(0, 0, 4294967295); (1, 65, 0)] 157 [2; 0; 0; 132; 1; 0].
 Lemma xlsb_nonvacuous :
